@@ -23,7 +23,7 @@ var QuickRoots = []string{
 	"services/meta/internal", "services/retention", "services/httpd",
 	"services/snapshotter", "models", "query", "tcp", "tsdb",
 	"tsdb/engine/tsm1", "tsdb/index/inmem", "tsdb/index/tsi1", "pkg/file",
-	"pkg/limiter", "pkg/tar", "query/internal",
+	"pkg/limiter", "pkg/tar", "query/internal", "storage/reads", "storage/reads/datatypes", "services/storage", "tsdb/cursors",
 }
 
 // Prog is the loaded, type-checked program.
